@@ -20,6 +20,7 @@ from __future__ import annotations
 
 import dis
 import logging
+import os
 import sys
 
 _APPLIED = False
@@ -83,7 +84,7 @@ def apply() -> None:
 
     _core._PATCH_REGISTRATIONS[str] = _str
 
-    if sys.version_info < (3, 13):
+    if sys.version_info < (3, 13) or os.environ.get("VERIF_NO_FSTRING_PATCH") == "1":
         return
     FORMAT_SIMPLE = dis.opmap["FORMAT_SIMPLE"]
 
